@@ -20,7 +20,7 @@ for d in sorted(os.listdir(V + "/seeded")):
     needs = re.sub(r"[*`|]", "", needs)
     needs = (needs[:170] + "…") if len(needs) > 170 else needs
     fr = m.get("first_run", {}).get("result", "")
-    fr = fr if fr in ("missed", "detected") else "r1"
+    fr = fr if fr in ("missed", "detected") else ("other check only" if fr.startswith("detected by") else ("not measured" if fr.startswith("not measured") else "r1"))
     rows.append("| %s | %s | %s | %s | %s | %s |" % (d, title.replace("|", "/"), ", ".join(m["patch_files"]), needs, fr, "<br>".join("`%s`" % k for k in keys) if keys else "**MISSED**"))
 rows.append("")
 rows.append("%d kept seeds, %d detected by at least one check (exit 1 with a VIOLATION line naming the instance)." % (n, det))
